@@ -32,7 +32,7 @@ def op_terms(op):
         return ["OpReceive %s %s %s %s %s" % (cN(op["slate"]), cN(op["amount"]), cN(op["ttl"]),
                                               cOpt(op["dest"], cN), cB(op["crypto_ok"]))]
     if k == "lock":
-        return ["OpLock %s %s %s" % (cN(op["slate"]), cN(op["ttl"]), cN(op["tip"]))]
+        return ["OpLock %s %s %s %s" % (cN(op["slate"]), cN(op["ttl"]), cN(op["tip"]), cB(op.get("has_tx", True)))]
     if k == "cancel":
         return ["OpCancel %s %s" % (cOpt(op["id"], cN), cOpt(op["slate"], cN))]
     if k == "finalize":
@@ -46,6 +46,21 @@ def op_terms(op):
             cN(p["change_outputs"]), cB(p["all"]))
         return [refresh_term(op["parent"], False, op["view"]),
                 "OpInitSend %s %s %s %s" % (cN(slate), cOpt(op["src"], cN), params, cB(op["late"]))]
+    if k == "issue_invoice":
+        slate = op["slate"] if op["slate"] is not None else 999999
+        return ["OpIssueInvoice %s %s %s %s" % (cN(slate), cN(op["amount"]), cN(op["tip"]), cOpt(op["dest"], cN))]
+    if k == "process_invoice":
+        p = op["p"]
+        params = "(mkParams %s %s %s %s %s %s %s 0%%N)" % (
+            cN(p["amount"]), cB(p["aif"]), cN(p["h"]), cN(p["minconf"]), cN(p["max_outputs"]),
+            cN(p["change_outputs"]), cB(p["all"]))
+        v = op["view"]
+        pres = cL(["(%s, %s, %s)" % (kid(x[0], x[1]), cOpt(x[2], cN), cN(x[3])) for x in v["presence"]])
+        km = cL([cN(x[1]) for x in v["kernel_missing"] if x[0] == op["parent"]])
+        return ["OpProcessInvoice %s %s %s %s %s %s %s" % (cN(op["slate"]), cN(op["ttl"]), cOpt(op["src"], cN), params,
+                                                            cN(v["tip"]), pres, km)]
+    if k == "finalize_invoice":
+        return ["OpFinalizeInvoice %s %s %s" % (cN(op["slate"]), cN(op["ttl"]), cB(op["crypto_ok"]))]
     raise vlib.Infra("unknown op " + k)
 
 
@@ -110,6 +125,10 @@ def model_traces(prop, rows):
         for s in r["steps"]:
             if s["extra"].get("nomodel"):
                 break
+            if s["op"]["k"] == "process_invoice" and s["rc"] in ([1, 7], [1, 5], [1, 6]):
+                s["op"]["_refused_early"] = True
+            if s["op"]["k"] == "init_send" and s["rc"] == [1, 19]:
+                s["op"]["_refused_early"] = True
             t = op_terms(s["op"])
             ops.extend(t)
             lay.append(len(t))
@@ -133,6 +152,8 @@ def compare(rows, traces):
     for r, tr in zip(rows, traces):
         for idx, (s, (mrc, mproj)) in enumerate(zip(r["steps"], tr)):
             irc = s["rc"]
+            if s["op"]["k"] == "finalize_invoice" and not s["op"]["crypto_ok"]:
+                irc = [1, 17]   # signature / kernel-sum / fee verdicts of slate.finalize: one class
             ip = canon(proj_from_snap(s["snap"]))
             mp = canon([mproj[0], mproj[1], mproj[2], mproj[3], mproj[4]])
             if irc != mrc or ip != mp:
@@ -186,9 +207,19 @@ def oracle_c03(rows):
                                   "what": "%d live log entries of type %d for slate %d in account %d" % (v, k[2], k[1], k[0])})
             live = {(t["parent"], t["id"]) for t in snap["txs"] if t["type"] == 2 and not t["confirmed"]}
             for o in snap["outputs"]:
+                if o["status"] == 1 and (o["root"], o["tx"]) in live and not o["cb"] is None and prev is not None:
+                    po = outputs_by_key(prev).get((o["acct"], o["child"], o["mmr"]))
+                    if po is not None and po["status"] == 2 and po["tx"] == o["tx"] and s["op"]["k"] == "cancel":
+                        fails.append({"row": (r["seed"], r["wallet"]), "seed": r["seed"], "step": idx,
+                                      "what": "input %s of live sent entry %s released by a cancel of another transaction"
+                                              % ((o["acct"], o["child"]), (o["root"], o["tx"]))})
                 if o["status"] == 2 and (o["root"], o["tx"]) not in live:
+                    tag = ""
+                    ent = [t for t in snap["txs"] if (t["parent"], t["id"]) == (o["root"], o["tx"])]
+                    if s["op"]["k"] == "update_state" and ent and ent[0]["type"] == 4:
+                        tag = " [scan-cancel-without-release]"
                     fails.append({"row": (r["seed"], r["wallet"]), "seed": r["seed"], "step": idx,
-                                  "what": "Locked output %s not held by a live TxSent entry" % ((o["acct"], o["child"]),)})
+                                  "what": "Locked output %s not held by a live TxSent entry%s" % ((o["acct"], o["child"]), tag)})
             prev = snap
     return fails
 
@@ -287,7 +318,7 @@ def oracle_c07(rows):
             ex = s["extra"]
             k = s["op"]["k"]
             is_foreign = ex.get("foreign") or (k == "finalize" and ex.get("forged"))
-            legit_finalize = k == "finalize" and s["rc"] == [0] and not ex.get("forged")
+            legit_finalize = k in ("finalize", "finalize_invoice") and s["rc"] == [0] and not ex.get("forged")
             if prev is not None and is_foreign and not legit_finalize:
                 po, no = outputs_by_key(prev), outputs_by_key(snap)
                 for key, o in po.items():
@@ -360,11 +391,11 @@ def oracle_c17(rows):
         for idx, s in enumerate(r["steps"]):
             snap = s["snap"]
             k = s["op"]["k"]
-            if prev is not None and k in ("receive", "finalize"):
+            if prev is not None and k in ("receive", "finalize", "process_invoice", "finalize_invoice"):
                 ttl = int(s["op"]["ttl"])
                 confh = prev["conf_h"]
                 expired = ttl != 0 and confh >= ttl
-                if k == "finalize" and s["rc"] == [1, 21]:
+                if k in ("finalize", "finalize_invoice") and s["rc"] == [1, 21]:
                     pass   # no context: refused before the TTL test
                 elif expired:
                     if s["rc"] != [1, 7]:
